@@ -6,6 +6,13 @@ statements and `sys.displayhook(v)` calls against the htmltools working tree.
   hook_wrap <val>                    ->  N | S <val>
 
 sys.displayhook is process-global: every op saves it first and restores it in `finally`.
+
+The answer of `hook_run` holds the property's observables and nothing else: the exception kind, whether the recorder
+is current again, the hook identity around every with-statement, what the recorder was handed, and the children each
+(plain) Tag ends up with, in order — not how a Tag appends internally.  Displayed values are real objects of every
+kind the child rules distinguish: str, numbers, HTML, self-rendering objects (also ones that are a str/tuple/list/float),
+Tags, lists/tuples (and subclasses, nested), TagLists, Tagifiable objects, objects with tagify() AND _repr_html_() (an
+own class and a real JSXTag), invalid objects.  Tagifiable objects are recognised in the result by identity.
 """
 from __future__ import annotations
 
@@ -16,7 +23,8 @@ from ops import op
 from wire import Toks, p_list, p_hval, p_hitem, p_hprog, es, eb, elist, err_of
 
 import htmltools
-from htmltools import HTML, Tag
+from htmltools import HTML, Tag, TagList
+from htmltools._jsx import JSXTag
 
 
 class Boom(Exception):
@@ -78,14 +86,46 @@ def _number(txt: str):
     raise ValueError(f"no number prints as {txt!r}")
 
 
-class RecTag(Tag):
-    """a Tag subclass (users do subclass Tag) whose append() notes that it was called: displayed values have to be
-    appended to the block's TAG, through its own append()"""
+class TagifyObj:
+    """Tagifiable and nothing else (no `_repr_html_`): a child kept as the object, expanded by tagify() at render time"""
 
-    def append(self, *args):
-        super().append(*args)
-        self.__dict__.setdefault("_n_appended", 0)
-        self.__dict__["_n_appended"] += len(args)
+    def __init__(self, s):
+        self.s = s
+
+    def tagify(self):
+        return Tag("span", self.s)
+
+
+class TagifyReprObj(TagifyObj):
+    """Tagifiable AND self-rendering, like JSXTag or a widget: still a child kept as the object (its tagify() may
+    carry dependencies that an inert HTML string would lose)"""
+
+    def _repr_html_(self):
+        return "<i>inert " + self.s + "</i>"
+
+
+class ListSub(list):
+    __hash__ = None
+
+
+class TupleSub(tuple):
+    pass
+
+
+def _both(s, n):
+    """an object with tagify() and _repr_html_(): our own class, or a real JSXTag"""
+    return JSXTag("Foo", s) if n % 2 else TagifyReprObj(s)
+
+
+def _max_tag(v) -> int:
+    """1 + the largest tag id a value term refers to"""
+    if v[0] == "tagRef":
+        return v[1] + 1
+    if v[0] in ("list", "tuple"):
+        return max([_max_tag(x) for x in v[1]] or [0])
+    if v[0] == "tagList":
+        return max([i[1] + 1 for i in v[1] if i[0] == "tagRef"] or [0])
+    return 0
 
 
 class Recorder:
@@ -104,8 +144,12 @@ class Recorder:
 
 class Env:
     def __init__(self, ntags: int):
-        self.tags = [RecTag("div") for _ in range(ntags)]
+        # plain Tags, all structurally equal while empty (distinct blocks must be told apart by identity)
+        self.tags = [Tag("div") for _ in range(ntags)]
         self.ids = {id(t): i for i, t in enumerate(self.tags)}
+        self.objs = {}       # id(object) -> ('f' | 'b', name): Tagifiable objects are recognised by identity
+        self.keep = []       # ... and kept alive, so that an id is never reused
+        self.n_obj = 0
         self.invalid = _invalids()
         self.invalid_ids = {id(x) for x in self.invalid}
         self.n_invalid = 0
@@ -135,7 +179,30 @@ class Env:
             x = self.invalid[self.n_invalid % len(self.invalid)]
             self.n_invalid += 1
             return x
+        if k == "tagifiable":
+            return self.obj("f", v[1])
+        if k == "tagifiableRepr":
+            return self.obj("b", v[1])
+        if k == "tagList":
+            tl = TagList()
+            tl.data.extend(self.item(i) for i in v[1])      # below the normalising API: exactly these nodes
+            return tl
+        if k in ("list", "tuple"):
+            # elements are not seen by the display-hook wrapper: they are under the rules of append()
+            xs = [self.val(x, direct=True) for x in v[1]]
+            self.n_obj += 1
+            sub = (self.n_obj + len(xs)) % 3 == 0           # now and then a subclass of list / tuple
+            if k == "list":
+                return ListSub(xs) if sub else xs
+            return TupleSub(xs) if sub else tuple(xs)
         raise ValueError(v)
+
+    def obj(self, kind, name):
+        self.n_obj += 1
+        x = TagifyObj(name) if kind == "f" else _both(name, self.n_obj)
+        self.objs[id(x)] = (kind, name)
+        self.keep.append(x)
+        return x
 
     def item(self, i):
         k = i[0]
@@ -145,10 +212,17 @@ class Env:
             return HTML(i[1])
         if k == "robj":
             return ReprObj(i[1])
+        if k == "tobj":
+            return self.obj("f", i[1])
+        if k == "trobj":
+            return self.obj("b", i[1])
         return self.tags[i[1]]
 
     # ---- canonicalise (by identity for tags; never by repr)
     def c_item(self, c) -> str:
+        r = self.objs.get(id(c))
+        if r is not None:
+            return ("if " if r[0] == "f" else "ib ") + es(r[1])
         if isinstance(c, Tag):
             i = self.ids.get(id(c))
             return "ix foreign-tag" if i is None else f"ig {i}"
@@ -165,6 +239,9 @@ class Env:
             return "vn"
         if v is ...:
             return "ve"
+        r = self.objs.get(id(v))
+        if r is not None:
+            return ("vf " if r[0] == "f" else "vb ") + es(r[1])
         if isinstance(v, Tag):
             i = self.ids.get(id(v))
             return "vx foreign-tag" if i is None else f"vg {i}"
@@ -178,6 +255,12 @@ class Env:
             return "vm " + es(str(v))
         if id(v) in self.invalid_ids:
             return "vi"
+        if isinstance(v, TagList):
+            return "vq " + elist([self.c_item(c) for c in v])
+        if isinstance(v, list):
+            return "vl " + elist([self.c_val(x) for x in v])
+        if isinstance(v, tuple):
+            return "vu " + elist([self.c_val(x) for x in v])
         return "vx " + type(v).__name__
 
 
@@ -195,6 +278,12 @@ def _interpret(env: Env, progs, flags: list):
             sys.displayhook(p[1])
         elif k == "r":
             raise Boom()
+        elif k == "k":
+            # the tag gets a new child-list object holding the same nodes (children is a public, assignable attribute)
+            tag = env.tags[p[1]]
+            new = TagList()
+            new.data.extend(tag.children.data)
+            tag.children = new
         else:
             tag = env.tags[p[1]]
             before = sys.displayhook
@@ -219,7 +308,6 @@ def _hook_run(t: Toks) -> str:
     progs = _prepare(env, progs)
     recorder = Recorder()
     log = recorder.log
-    n_init = [len(t.children) for t in env.tags]
     flags: list = []
     saved = sys.displayhook
     try:
@@ -234,9 +322,6 @@ def _hook_run(t: Toks) -> str:
         back = sys.displayhook is recorder
     finally:
         sys.displayhook = saved
-    for t_, n0 in zip(env.tags, n_init):
-        if len(t_.children) - n0 != t_.__dict__.get("_n_appended", 0):
-            outcome = "children-not-added-through-the-tags-append"
     return " ".join([
         outcome, eb(back), elist(flags), elist([env.c_val(v) for v in log]),
         elist([elist([env.c_item(c) for c in tag.children]) for tag in env.tags]),
@@ -246,7 +331,7 @@ def _hook_run(t: Toks) -> str:
 @op("hook_append")
 def _hook_append(t: Toks) -> str:
     v = p_hval(t)
-    env = Env(max(2, (v[1] + 1) if v[0] == "tagRef" else 0))
+    env = Env(max(2, _max_tag(v)))
     fresh = Tag("span")
     saved = sys.displayhook
     try:
@@ -259,7 +344,7 @@ def _hook_append(t: Toks) -> str:
 @op("hook_wrap")
 def _hook_wrap(t: Toks) -> str:
     v = p_hval(t)
-    env = Env(max(2, (v[1] + 1) if v[0] == "tagRef" else 0))
+    env = Env(max(2, _max_tag(v)))
     got: list = []
     saved = sys.displayhook
     try:
